@@ -174,6 +174,7 @@ func Run(c *engine.Ctx) {
 		maxDev = 3
 	}
 	crafted(c, fds)
+	stringContents(c, fds)
 	for _, b := range bases() {
 		b := b
 		if b.Label == "full20" && !c.Thorough() {
@@ -240,6 +241,33 @@ func crafted(c *engine.Ctx, fds []protoreflect.FieldDescriptor) {
 				}
 				return diffCase(t, fds, a, b, fmt.Sprintf("crafted%d-%d", pi, dir))
 			})
+		}
+	}
+}
+
+// stringContents: at every string-valued place of a fully populated node, every ordered pair of the
+// near-string menu on the two sides: different strings are a difference, whatever they look like.
+func stringContents(c *engine.Ctx, fds []protoreflect.FieldDescriptor) {
+	c.Group("string-contents")
+	full := &sbom.Node{}
+	gen.Full(full, "A", 2)
+	slots := gen.StringSlots(full, 2)
+	menu := gen.NearStrings()
+	c.Bound("string-contents", fmt.Sprintf("%d string-valued places (nested to depth 2) x all %d ordered pairs of a %d-entry near-string menu", len(slots), len(menu)*len(menu), len(menu)))
+	for si := range slots {
+		if slots[si].Label == "id" {
+			continue // the key, not an attribute
+		}
+		for i := range menu {
+			for j := range menu {
+				si, i, j := si, i, j
+				c.Case(func() any { return map[string]any{"place": slots[si].Label, "first": menu[i], "second": menu[j]} }, func(t *engine.T) *engine.Violation {
+					n1, n2 := proto.Clone(full).(*sbom.Node), proto.Clone(full).(*sbom.Node)
+					slots[si].Set(n1.ProtoReflect(), menu[i])
+					slots[si].Set(n2.ProtoReflect(), menu[j])
+					return diffCase(t, fds, n1, n2, fmt.Sprintf("str|%s|%d|%d", slots[si].Label, i, j))
+				})
+			}
 		}
 	}
 }
